@@ -16,6 +16,7 @@ RULE = ("read: (instant stratum x notation {date, date-time, +ms, +offset, offse
         "(datetime.timezone and a custom tzinfo subclass) over all offsets, us resolution incl. rounding carries; write->read. "
         "A case = (operation, text or value); non-trivial = the library was called and its result compared with the reference")
 ASSUMPTIONS = ["ref_types.py (days-from-civil integer arithmetic) is correct (self-tested)",
+               "written values include zones whose offset depends on the date (hand-written PEP 495 tzinfo with fold); the instant a value denotes is value - tzinfo.utcoffset(value), computed by Python's aware arithmetic",
                "UNSPECIFIED, not judged: SS=60, offsets beyond -12:00..+14:00 or with seconds, years outside 1900-2200, zone names containing ] [ < &, the '[-:EST]' broker form"]
 LEVEL_TEXT = ("Exploration, exhaustive over the offset dimension: every whole-minute UTC offset in every spelling is read and written every run; "
               "instants are stratified over month/year ends, leap days, midnight and sub-millisecond rounding carries; every single-field "
